@@ -17,7 +17,8 @@ ECU model (plain JSON, replayable):
    "reset_ok": bool,          ECUReset answered positively (else 7F 11 22)
    "svc": 0x23|0x3D|0x34|0x35,
    "mem": {"<session>": {"<addr hex>": code}},   code: 0 positive, 256 silent, 257 silent on the first attempt then
-                                                 positive, else the NRC
+                                                 positive, 258 the ECU crashes (no answer, connection closed, back
+                                                 in the default session when it is reachable again), else the NRC
    "dflt": {"<session>": code},                  answer for all other addresses in that session (default 0x31)
    "drop": ["<addr hex>", ...]}                  after answering a probe of that address in a non-default session
                                                  the ECU falls back to its default session (S3 timeout / reset)
@@ -32,7 +33,9 @@ Nothing is judged here.
 from __future__ import annotations
 
 import asyncio
+import contextlib
 import re
+from collections.abc import Iterator
 from typing import Any
 
 from gallia.services.uds.core import service
@@ -40,9 +43,13 @@ from gallia.services.uds.core.constants import UDSIsoServices
 from gallia.services.uds.server import UDSServer
 
 from harness import vloop
-from harness.c10_stack import TARGET, _Raw, capture_results, serving
+from gallia.services.uds.server import TCPUDSServerTransport
+from gallia.transports import TargetURI
 
-POSITIVE, NONE, LATE = 0, 256, 257
+from harness.c10_stack import TARGET, _Raw, _SrvWriter, capture_results
+from harness.streams import Listener, Wire, patched_connections
+
+POSITIVE, NONE, LATE, CRASH = 0, 256, 257, 258
 ROOR = 0x31
 MEM_SERVICES = (0x23, 0x3D, 0x34, 0x35)
 
@@ -83,6 +90,7 @@ class MemServer(UDSServer):
         self.log: list[dict[str, Any]] = []
         self.last: bytes | None = None  # previous memory request (for the "late" answer class)
         self.last_silent = False
+        self.kill_connection: Any = None  # closes the connection currently served (set by serving_mem)
         sup: dict[UDSIsoServices, list[int] | None] = {
             UDSIsoServices.DiagnosticSessionControl: self.sessions,
             UDSIsoServices.ReadDataByIdentifier: None,
@@ -122,6 +130,11 @@ class MemServer(UDSServer):
         self.last, self.last_silent = bytes(pdu), code == NONE
         if truth != 1 and addr in self.drop:
             self.state.reset()
+        if code == CRASH:
+            self.state.reset()
+            if self.kill_connection is not None:
+                self.kill_connection()  # the ECU died: the peer sees the connection closed, no answer
+            return None
         if code == NONE:
             return None
         if code == POSITIVE:
@@ -175,6 +188,39 @@ class MemServer(UDSServer):
         return resp
 
 
+@contextlib.contextmanager
+def serving_mem(server: MemServer) -> Iterator[Listener]:
+    """Like harness.c10_stack.serving (every (re)connection of the client is served by the real handle_client);
+    additionally tells the fake which connection is the current one, so that a crashing ECU can close it."""
+    tr = TCPUDSServerTransport(server, TargetURI(TARGET))
+    lst = Listener()
+    tasks: list[asyncio.Future[Any]] = []
+
+    def accept(wire: Wire) -> None:
+        rd = asyncio.StreamReader(limit=2**20)
+        wire.on_out = rd.feed_data
+        wire.on_client_close = rd.feed_eof
+
+        def kill() -> None:
+            # a dead ECU neither answers nor reads what still arrives on the old connection
+            wire.on_out = lambda data: None
+            wire.on_client_close = lambda: None
+            rd.feed_eof()
+            wire.eof()
+
+        server.kill_connection = kill
+        t = asyncio.ensure_future(tr.handle_client(rd, _SrvWriter(wire)))  # type: ignore[arg-type]
+        t.add_done_callback(lambda f: f.cancelled() or f.exception())
+        tasks.append(t)
+
+    lst.on_accept = accept
+    with patched_connections(lst):
+        yield lst
+    for t in tasks:
+        if not t.done():
+            t.cancel()
+
+
 _RE_ADDR = re.compile(r"address\W*?(0x[0-9a-f]+|\d+)\b", re.I)
 _RE_TIMEOUT = re.compile(r"time[ -]?out|timed out|no (response|answer|reply)|missing response|unanswered", re.I)
 
@@ -226,7 +272,7 @@ def run_case(case: dict[str, Any], mutant: str | None = None) -> dict[str, Any]:
     async def go() -> None:
         server = MemServer(ecu, mutant=mutant)
         holder["server"] = server
-        with serving(server):
+        with serving_mem(server):
             sc = MemoryFunctionsScanner(MemoryFunctionsScannerConfig(**options_of(cfg)))
             try:
                 await sc.run()
